@@ -912,15 +912,20 @@ func TestC18InferAndEquivalences(t *testing.T) {
 					checkRow(arr.Row(i)[0], r, i)
 				}
 			case "nullable-datetime64":
-				// Nullable is not in the statement's list of inferring wrappers: only the
-				// same-precision case is asserted.
-				target = new(proto.ColDateTime64).WithPrecision(proto.Precision(p))
+				// A block of Nullable(DateTime64(p)) and a target created with another precision are either
+				// bound correctly (the parameter is adopted, as for the bare and the Array target) or not
+				// bound at all (an error): never bound with the ticks read at the target's own precision.
 				nl := proto.NewColNullable[time.Time](target)
 				var vals []ref.Val
 				for _, r := range raws {
 					vals = append(vals, ref.Null{V: le(8, r)})
 				}
-				decode([]ref.Column{{Name: "t", T: ref.Nullable(et), Rows: vals}}, proto.Results{{Name: "t", Data: nl}})
+				if err := c18decode(encodeRefBlock(rev, []ref.Column{{Name: "t", T: ref.Nullable(et), Rows: vals}}, -1), rev, proto.Results{{Name: "t", Data: nl}}); err != nil {
+					if isPanic(err) || p == tp {
+						rt.Fatalf("[%s] decode of %s into a Nullable target of precision %d: %v", class, tn, tp, err)
+					}
+					break // refused: fine
+				}
 				for i, r := range raws {
 					checkRow(nl.Row(i).Value, r, i)
 				}
